@@ -22,9 +22,9 @@ CLAIMED = {
    note="~1500 function records + 22 corpus files; presence inside conditional blocks (documented limitation) and `request` parameters are not judged.",
    technique="TLA+ rule operators + feature-product table (TLC) + three-way comparison with CPython extraction and the real analyzer + TLC trace validation of the repository's own test-suite (SuiteTrace.tla)"),
  "C04": dict(level=MC, ref="DESIGN.md section 4 C04",
-   text="TLC checks Mirror and RefsInverse on the implementation model for every (layout, order); on the real library references(D) is compared with {u : goto(u) = D} for every definition, duplicates and unresolved usages are checked, the reverse index is compared with the per-file usages, CLI-unused equals 'no incoming usage'.",
+   text="TLC checks Mirror and RefsInverse on the implementation model for every (layout, order); on the real library references(D) is compared with {u : goto(u) = D} for every definition, duplicates and unresolved usages are checked, the reverse index is compared with the per-file usages, CLI-unused equals 'no incoming usage'. Thorough tier: Mirror / DefKeyed are INDUCTIVE invariants of the index's set abstraction MirrorInd.tla (Apalache for fixed carrier sets, TLAPS for arbitrary ones), which History.tla refines (action property RefinesMirrorInd checked by TLC on every transition).",
    note="Internal-consistency oracle (no reference model needed); LSP-level counts are compared in the binary tier when built.",
-   technique="TLA+ invariants (Mirror, RefsInverse) + replay with inverse-relation oracle"),
+   technique="TLA+ invariants (Mirror, RefsInverse; inductive by Apalache / TLAPS on the set abstraction, refinement checked by TLC) + replay with inverse-relation oracle"),
  "C05": dict(level=MC, ref="DESIGN.md section 4 C05",
    text="For every (layout, order) the four resolvers of the library are asked about the same (file, name) / (fixture, dependency) and must denote the definition layer R selects; TLC checks RepairedViewsAgree on the model; disagreements must match listed findings exactly as predicted.",
    note="Library-level resolvers; the LSP handlers are thin projections of them.",
@@ -34,7 +34,7 @@ CLAIMED = {
    note="3 files x 5-6 versions, histories of length <= 3 (quick) / 4 (thorough); positional queries inside a currently unparsable document are not compared.",
    technique="TLA+ state machine over histories (TLC exhaustive) + replay on long-lived vs fresh twin + TLC trace validation (random histories; the repository's own test-suite through the trace hook)"),
  "C07": dict(level=MC, ref="DESIGN.md section 4 C07",
-   text="TLC visits every interleaving of edits, cached queries, closes, evictions and (chain universe) didOpen of unmodified documents up to the bound, proves WarmEqualsColdRepaired on the repaired design; each history ending in a query runs on a real long-lived database and on a cold twin that received only the edits (files on disk).",
+   text="TLC visits every interleaving of edits, cached queries, closes, evictions and (chain universe) didOpen of unmodified documents up to the bound, proves WarmEqualsColdRepaired on the repaired design; each history ending in a query runs on a real long-lived database and on a cold twin that received only the edits (files on disk); a fourth configuration closes MODIFIED documents (the cold twin performs the same close, only earlier queries are dropped) and the main universe contains an unparsable version of the importing conftest.",
    note="3 files on disk, 4 versions each incl. mutually importing modules; <= 4/5 events with <= 3 non-edit events; eviction emulated per victim through the pub maps.",
    technique="TLA+ state machine with cache variables (TLC exhaustive) + warm/cold twin replay"),
  "C08": dict(level=MC, ref="DESIGN.md section 4 C08",
